@@ -10,9 +10,9 @@
     names.  [font_equiv] is the equality of the property: everything but the creator, numbers /
     colours under the part equalities, feature text up to line endings, stores byte-identical. *)
 Require Import Norad.Model.GlifSpec Norad.Model.GlifEncode Norad.Proofs.GlifEncodeP Norad.Proofs.GlifRoundtripP Norad.Proofs.GlifFullP.
-Require Import Norad.Model.Base Norad.Model.FontRT Norad.Model.FontToy Norad.Model.FontNum Norad.Model.FontRealInfo Norad.Model.FontReal Norad.Model.FontRealPlist
+Require Import Norad.Model.Base Norad.Model.FontRT Norad.Model.FontToy Norad.Model.FontNum Norad.Model.FontRealInfo Norad.Model.FontReal Norad.Model.FontRealPlist Norad.Model.FontRealFiles
                Norad.Proofs.FontRealInfoP
-               Norad.Proofs.FontRTP Norad.Proofs.FontToyP Norad.Proofs.FontNumP Norad.Proofs.FontRealP.
+               Norad.Proofs.FontRTP Norad.Proofs.FontToyP Norad.Proofs.FontNumP Norad.Proofs.FontRealP Norad.Proofs.PlistNfP Norad.Proofs.FontRealFilesP.
 Open Scope N_scope.
 
 Theorem C01_roundtrip : forall (S : sig), sig_ok S -> forall o (f : font S),
@@ -146,7 +146,10 @@ Proof. eexists. split; vm_compute; reflexivity. Qed.
       tests [== 0.0], colours that are fixed points of the three-decimal rendering, lib keys sorted
       recursively — the form every written-and-re-read glyph has) — and the font info satisfies
       [wf_sinfo] (FontInfo::validate accepts, integer fields within their machine types).
-    On that domain glyphs (libs included), font info and groups come back exactly. *)
+    On that domain glyphs (libs included), font info and groups come back exactly.  Values of the
+    font lib, layer libs and guideline libs are compared as the plist crate compares them: a
+    dictionary is a map, the order of its keys is not observable ([pv_eqv], decided by the
+    normal form [nf] of Model/FontReal.v; C01_plist_equality_is_map_equality). *)
 Theorem C01_roundtrip_real : forall pf ff ff3 fi fh (K : codecs),
   L1_glif pf ff ff3 fi fh -> codecs_ok K ->
   forall o (f : font (real_sig pf ff ff3 fi fh K)),
@@ -208,3 +211,74 @@ Example C01_real_plist_file_domains_inhabited :
   wf_lc [([102;111;114;101], [103;108;121;112;104;115])] /\
   wf_ct [([65], [65;95;46;103;108;105;102]); ([97], [97;46;103;108;105;102])].
 Proof. exact plist_files_domains_inhabited. Qed.
+
+(** ---------- every file through the plist tree: no file codec left abstract ----------
+    [all_files pf ff ff3 fi to_bits of_bits lw] (Model/FontRealFiles.v) is a [codecs] with, besides
+    the three files above,
+    - lib.plist: the dictionary itself, written after [util::recursive_sort_plist_keys]; read as the
+      dictionary of the file;
+    - layerinfo.plist: [color] (the string of [Color::to_rgba_string], C02's three-decimal colour
+      text) and [lib], each present iff given, keys sorted; read with unknown keys ignored, the
+      colour through [Color::from_str];
+    - groups.plist: BTreeMap name -> array of names, names through [Name]'s deserialiser;
+    - kerning.plist: name -> name -> number, a number written as <integer> when it equals its
+      rounding and lies in the i32 range and as <real> otherwise (cf70ca2), either read as f64
+      ([C01_kerning_number_examples]).
+    The equality of lib values is the plist crate's: dictionaries are maps, the order of keys (at
+    any depth below dictionaries) is not observable ([C01_plist_equality_is_map_equality]); it is
+    decided by the normal form [nf], which on every real dictionary is the recursive key sort the
+    writer applies ([C01_normal_form_is_recursive_key_sort]).
+
+    PROVED: [codecs_ok] of this instance ([C01_all_files_lawful]), so the round trip needs
+
+    Hypotheses that remain:
+    - [L1_glif]: the std text facts (f64 Display / from_str on finite numbers, the {:.3} colour
+      channel, {:04X}, the plist integer text) — the L1 list of C02_roundtrip;
+    - [forall v, to_bits (of_bits v) = v]: f64::from_bits(v).to_bits() == v (the kerning maps of
+      Model/Groups.v hold numbers by their bit pattern);
+    - [font_valid]: the domain.  Besides the glyph domain [wf_glyph] and the font-info domain
+      [wf_sinfo] (see C01_roundtrip_real) it now reads, for the plist files: lib values (font lib,
+      layer libs, guideline libs) the plist writer represents — finite reals, integers within
+      i64/u64, bytes, well-shaped dates, no repeated key ([wf_pv_real]); layer colours in 0..1 that
+      are fixed points of the three-decimal rendering ([wf_color_real]; as for glyph colours);
+      groups and kerning in BTreeMap order with valid names ([wf_groups], [wf_kerning]); kerning
+      numbers finite and not the negative zero, which is written as the integer 0 ([wf_num]);
+      glyphs of a layer in name order ([wf_ct]).
+    Inhabited: [C01_all_files_domains_inhabited]. *)
+Theorem C01_all_files_lawful : forall pf ff ff3 fi fh to_bits of_bits lw,
+  L1_glif pf ff ff3 fi fh -> (forall v, to_bits (of_bits v) = v) ->
+  codecs_ok (all_files pf ff ff3 fi to_bits of_bits lw).
+Proof. exact all_files_lawful. Qed.
+Theorem C01_roundtrip_real_all_files : forall pf ff ff3 fi fh to_bits of_bits lw,
+  L1_glif pf ff ff3 fi fh -> (forall v, to_bits (of_bits v) = v) ->
+  forall o (f : font (real_sig pf ff ff3 fi fh (all_files pf ff ff3 fi to_bits of_bits lw))),
+  font_valid (real_sig pf ff ff3 fi fh (all_files pf ff ff3 fi to_bits of_bits lw)) f ->
+  exists t, save (real_sig pf ff ff3 fi fh (all_files pf ff ff3 fi to_bits of_bits lw)) o f = Ok t /\
+            spec_write (real_sig pf ff ff3 fi fh (all_files pf ff ff3 fi to_bits of_bits lw)) norad_choices o f = Some t /\
+            exists f', load (real_sig pf ff ff3 fi fh (all_files pf ff ff3 fi to_bits of_bits lw)) t = Ok f' /\
+                       font_equiv (real_sig pf ff ff3 fi fh (all_files pf ff ff3 fi to_bits of_bits lw)) f f'.
+Proof. exact roundtrip_all_files. Qed.
+(** the four remaining files as an instance of the reduced record of the previous block *)
+Theorem C01_files4_lawful : forall pf ff ff3 fi fh to_bits of_bits lw,
+  L1_glif pf ff ff3 fi fh -> (forall v, to_bits (of_bits v) = v) ->
+  codecs4_ok (files4 pf ff ff3 fi to_bits of_bits lw).
+Proof. exact files4_ok. Qed.
+(** what the equality of lib values is *)
+Theorem C01_plist_equality_is_map_equality : forall a b : dict,
+  pv_eqv (PDict a) (PDict b) <-> (forall k, orel pv_eqv (alookup k a) (alookup k b)).
+Proof. intros a b. rewrite <- pd_eq_orel. split; [apply pv_eqv_dicts|apply pd_eq_dicts]. Qed.
+Theorem C01_normal_form_is_recursive_key_sort : forall v, pv_good 0 v = true -> nf v = sort_keys_rec_pv v.
+Proof. exact (nf_sort 0). Qed.
+Theorem C01_kerning_number_roundtrip : forall x, wf_num x ->
+  pv_good 0 (num_pv x) = true /\ pv_num (num_pv x) = Some x.
+Proof. exact num_rt. Qed.
+Example C01_kerning_number_examples :
+  num_pv (FFin true 5 3) = PInt (-40) /\ num_pv (FFin true 1 31) = PInt (- 2 ^ 31) /\
+  num_pv (FFin false 27 (-1)) = PReal (FFin false 27 (-1)) /\ num_pv (FFin false 1 31) = PReal (FFin false 1 31) /\
+  pv_num (PInt (-40)) = Some (FFin true 5 3).
+Proof. exact num_examples. Qed.
+Example C01_all_files_domains_inhabited :
+  wf_lib lib_sample /\ wf_groups groups_sample /\
+  (forall pf ff3, wf_li pf ff3 (None, Some lib_sample)) /\
+  (forall of_bits v, wf_num (of_bits v) -> wf_kerning of_bits [([65], [([66], v)])]).
+Proof. split; [exact lib_sample_wf|split; [exact groups_sample_wf|split; [exact li_sample_wf|exact kerning_sample_wf]]]. Qed.
